@@ -4,7 +4,7 @@ with zero elements masked; each element evaluated at most once; negative / infin
 Three-way: the Lean model `Index.getitem` (driver command `index`) is asked for the same item and must give the result shape, the
 source element of every entry of the result (row-major) and the set of evaluated elements that the real code shows; the model's plain
 NumPy rule `Index.select` is compared with NumPy itself on a dense array (`dense` mode), so that a disagreement is attributed to the
-right side.  Finite-dimension-only items (views) are compared element by element through the model's selection on the finite shape."""
+right side.  Finite-dimension-only items (views) are compared element by element with the model's `view` (= the model's selection on the finite shape followed by the orders, theorem C19_view)."""
 import os, sys; sys.path.insert(0, os.path.dirname(os.path.abspath(__file__)))
 from common import case_rnd, skip
 import sys, json, random, itertools, warnings
@@ -122,6 +122,11 @@ def main(seed, ncases, driver, out):
                 failures.append(dict(desc, kind="view: shape", got=str(getattr(v, "shape", None)), want=str(vshape))); continue
             positions = list(itertools.product(*[range(n) for n in vshape]))
             orders = [tuple(rnd.randrange(top) for _ in range(ninf)) for _ in range(2)]
+            for o in orders:
+                # the model's view (what the packed series asks of its parent, reshaped) against NumPy's selection on the finite shape
+                mvo = parse_model(ask({"cmd": "index", "shape": list(shape), "view": list(o), "item": enc(fitem)}))
+                if isinstance(mvo, str) or mvo[0] != vshape or list(mvo[1]) != [tuple(src) + o for src in vsrc]:
+                    failures.append(dict(desc, kind="model view vs model selection", correspondence_only=True, model=str(mvo)[:120]))
             for pos, src in zip(positions, vsrc):
                 for o in orders:
                     w = dense[src + o]
